@@ -33,7 +33,25 @@ def leg_a(ctx):
                 ctx, coverage=False, timeout=900, label='WalletSync-witness', workers=8)
     if 'QuiescentUnreachable' not in w.violated:
         raise MachineryError('quiescence is not reachable in the model: convergence invariants would hold vacuously')
-    ctx.leg('A', invariants=INVS + ['NeverLoseTx'], witness='Quiescent reachable')
+    # gap maintenance under concurrency: WalletGap.tla, every gap-connected funded set, every interleaving
+    gcfg = ('SPECIFICATION Spec\nCONSTANTS\n  GAP = {}\n  MAXN = 7\n  FINALGAP = {}\nINVARIANT FoundWithinGap\nINVARIANT GapMaintained\nCHECK_DEADLOCK FALSE\n')
+    for gap in (2, 3):
+        g = tlc.run('WalletGap', gcfg.format(gap, 'TRUE'), ctx, timeout=900, label=f'WalletGap-{gap}', workers=8)
+        ctx.add_tlc(g, f'WalletGap exhaustive GAP={gap}, addresses 0..7, every gap-connected funded set')
+        if g.violated:
+            ctx.violation('model:gap:' + g.violated[0], f'gap model invariant {g.violated[0]} violated', g.error_trace[:6000])
+            return
+        tlc.require_coverage(g, ['Save', 'SetHist', 'GRead', 'GGen'], 'WalletGap')
+    neg = tlc.run('WalletGap', gcfg.format(2, 'FALSE'), ctx, coverage=False, timeout=600, label='WalletGap-neg', workers=4)
+    if not neg.violated:
+        raise MachineryError('negative control failed: without the final ensure gap of every update the gap model should be refuted')
+    for wname in ('W_Quiescent', 'W_Transient'):
+        wr = tlc.run('WalletGap', gcfg.format(2, 'TRUE').replace('INVARIANT FoundWithinGap\nINVARIANT GapMaintained\n', f'INVARIANT {wname}\n'),
+                     ctx, coverage=False, timeout=600, label=wname, workers=4)
+        if wname not in wr.violated:
+            raise MachineryError(f'reachability witness {wname} not reached')
+    ctx.leg('A', invariants=INVS + ['NeverLoseTx', 'FoundWithinGap', 'GapMaintained'], witness='Quiescent reachable; transient used_times=0 observed by a concurrent ensure gap',
+            negative_control='no final ensure gap refutes the gap model')
 
 
 # ------------------------------------------------------------------------------------------------- fake server
